@@ -1,7 +1,7 @@
 SPECIFICATION Spec
 CONSTANTS
   ClassLevelPropagate = FALSE
-  ParamResolve = FALSE
+  ParamResolve = TRUE
   InitRestated = TRUE
   OriginFromSuper = FALSE
   AllowModifyBusy = FALSE
